@@ -16,7 +16,7 @@ META = dict(
     technique="exhaustive enumeration of stencil accuracies x grids x samplings over the complete Fourier basis of each grid; analytic eigenvalue as reference",
     text="For 6-9 stencil accuracies, 3 grids and 2 samplings (one anisotropic) the real LaplaceOperator is applied to every plane wave of the grid and "
          "compared with the analytic eigenvalue of the stencil (coefficients typed in independently); vacuum propagation of band-limited waves "
-         "through RealSpaceMultislice preserves intensity for both orders and expansion scopes; lazy and eager real-space runs are compared. All ordered pairs (thorough: triples) of stencil accuracies are used one after another on one grid in one process.",
+         "through RealSpaceMultislice preserves intensity for both orders and expansion scopes, also for every low-band plane wave (k = 0 included) propagated together as one ensemble, each member compared with the same wave propagated alone; lazy and eager real-space runs are compared. All ordered pairs (thorough: triples) of stencil accuracies are used one after another on one grid in one process.",
     note="Bound: grids <= 12x10, accuracies <= 12 (18 thorough). The eigenvalue check is exhaustive for the operator on each enumerated grid because the "
          "operator is diagonal in the Fourier basis. Tolerance 1e-4 relative to max |lambda| (complex64 stencil).",
 )
@@ -56,6 +56,8 @@ def check(ctx):
             cases.append({"kind": "eig-history", "seq": list(seq), "s": s})
     for order, scope, s in itertools.product((1, 2), ("propagator", "full"), range(len(SAMP))):
         cases.append({"kind": "vacuum", "order": order, "scope": scope, "s": s})
+    for order, scope, s in itertools.product((1, 2), ("propagator", "full"), range(len(SAMP))):
+        cases.append({"kind": "vacuum-batch", "order": order, "scope": scope, "s": s})
     for p, b, d in itertools.product(("atoms", "fp2"), ("probe", "pw"), ("waves", "pix")):
         cases.append({"kind": "lazy", "p": p, "b": b, "d": d})
     ctx.run(cases, "run_case", batch=1, rule="eig: (accuracy, grid, sampling) with every plane wave of the grid inside; vacuum: (order, scope, sampling); "
@@ -146,6 +148,42 @@ def run_case(c):
         if not e <= 1e-4:
             bad("vacuum/intensity/%s" % ("isotropic" if samp[0] == samp[1] else "anisotropic"), "real-space propagation through 2 A of vacuum changes the intensity by %.3g (order %d, %s)" % (e, c["order"], c["scope"]))
         return {"viol": viol, "obs": "%.2e" % e, "tr": 1, "err": worst}
+    if c["kind"] == "vacuum-batch":
+        # EVERY plane wave inside the band (|k| < 0.85 of the antialiasing cutoff, the uniform wave k = 0 included) propagated together as ONE ensemble:
+        # every member keeps its intensity, and equals the same wave propagated on its own (members converge at different speeds)
+        from abtem.core.axes import OrdinalAxis
+        from abtem.multislice import RealSpaceMultislice
+
+        gpts, samp = (16, 12), SAMP[c["s"]]
+        N, M = gpts
+        x = np.arange(N)[:, None]
+        y = np.arange(M)[None]
+        kx = np.fft.fftfreq(N, samp[0])
+        ky = np.fft.fftfreq(M, samp[1])
+        kcut = 0.85 * (2 / 3) * min(0.5 / samp[0], 0.5 / samp[1])  # well inside the antialiasing aperture that every real-space step applies
+        modes = [(p, q) for p in range(N) for q in range(M) if np.hypot(kx[p], ky[q]) < kcut]
+        basis = np.stack([np.exp(2j * np.pi * (p * x / N + q * y / M)) for p, q in modes]).astype(np.complex64)
+        pot = abtem.PotentialArray(np.zeros((4,) + gpts, np.float32), slice_thickness=2.0, sampling=samp)
+        alg = RealSpaceMultislice(order=c["order"], expansion_scope=c["scope"], derivative_accuracy=8)
+        w = abtem.Waves(basis.copy(), energy=100e3, sampling=samp, ensemble_axes_metadata=[OrdinalAxis(values=tuple(range(len(modes))))])
+        out = np.asarray(w.multislice(pot, algorithm=alg).array)
+        inten = (np.abs(out) ** 2).sum(axis=(-2, -1)) / (N * M)
+        e = float(np.abs(inten - 1).max())
+        worst = e / 1e-4
+        if not e <= 1e-4:
+            k = int(np.argmax(np.abs(inten - 1)))
+            bad("vacuum/intensity/batch-member", "plane wave %r propagated through 8 A of vacuum inside an ensemble of %d plane waves changes its intensity by %.3g (order %d, %s)" % (
+                modes[k], len(modes), inten[k] - 1, c["order"], c["scope"]))
+        tr = 1
+        for k in range(0, len(modes), 7):
+            alone = np.asarray(abtem.Waves(basis[k].copy(), energy=100e3, sampling=samp).multislice(pot, algorithm=alg).array)
+            tr += 1
+            d = float(np.abs(alone - out[k]).max())
+            worst = max(worst, d / 1e-4)
+            if not d <= 1e-4:
+                bad("vacuum/batch-dependence", "plane wave %r: propagated inside the ensemble and on its own differ by %.3g" % (modes[k], d))
+                break
+        return {"viol": viol, "obs": "%d modes %.1e" % (len(modes), e), "tr": tr, "ref": len(modes), "err": worst}
     from abtem.multislice import RealSpaceMultislice
     from mc import universe as U
 
